@@ -40,7 +40,22 @@ def run_unit(desc):
         rep["must_fail"] = dict(mf, unit=c.uid)
         if mf["mutants"] and mf["killed"] == 0:
             rep["crash"] = f"vacuity: none of {mf['mutants']} must-fail mutants of {c.uid} was refuted"
-    if c.witness:
+    if c.witness and len(c.sources) > 1:
+        # several sources: interleavings of their events, real operator against the natively executed spec machine
+        rep["replayable"] = {"runner": "multirun.py", "module": desc["module"], "name": c.name}
+        if h.unsupported or tier == "thorough":
+            res, err = report.native([os.path.join(VERIF, "rxvc", "multirun.py"), "replay", desc["module"], c.name,
+                                      json.dumps({"max_len": 3 if tier == "quick" else 4, "budget_s": 90,
+                                                  "replay_path": os.path.join(report.REPLAY_DIR, f"{desc['prop']}-standin-{c.name.replace('/', '_')}.py"),
+                                                  "prop": desc["prop"], "oid": c.uid + "/bounded-standin"})], timeout=200)
+            st = res if res is not None else {"found": [], "error": err, "cases": 0}
+            rep["standin"] = st
+            rep["bounded"].append({"function": c.uid, "bound": "all interleavings of the sources' events of length<=%d over 3-4 values x parameter grid" % (3 if tier == "quick" else 4),
+                                   "cases": st.get("cases", 0), "mismatches": len(st.get("found", [])),
+                                   "role": "stand-in (out of subset)" if h.unsupported else "cross-check of the encoding against CPython"})
+            if not h.unsupported and st.get("found") and all(r.verdict == "proved" for r in h.results):
+                rep["crash"] = f"encoding cross-check failed: verifier proved {c.uid} but native run disagrees: {st['found'][0]}"
+    elif c.witness:
         rep["replayable"] = {"runner": "diffrun.py", "module": desc["module"], "name": c.name}
         # the executable twin of the spec against the literal list expression (validates the SPEC, bounded)
         res, err = report.native([os.path.join(VERIF, "rxvc", "diffrun.py"), "validate", desc["module"], c.name,
